@@ -12,7 +12,7 @@ RULE = ('as C01: activeness of every decode must satisfy decode_witness(full): a
         'variable not flagged conditionally_active must be active in every row of the model; non-trivial = at least 2 rows')
 TRUSTED = ['the encoding description E is read from GraphProcessor.all_des_vars']
 PARTIAL = ['connection encoders: the direct-hit path of eager encoders is checked under C10']
-batches = _proc.make_batches('C07', ['complete', 'fast'], 400, 4000)
+batches = _proc.make_batches('C07', ['complete', 'fast'], 400, 4000, cons_prob=0.25)
 run_case = _proc.make_run_case(CLAUSES)
 compare = _proc.compare
 shrink_candidates = _proc.shrink_candidates
